@@ -160,6 +160,37 @@ pub fn oracle(input: &[u8], obs: &mut Obs) -> Result<(), Fail> {
         for k in 0..5 {
             ensure!(st.next().is_none(), "C20/stream/not-latched", "StreamDeserializer over {:?} yields an item {} polls after it reported an error or the end", show_bytes(&w, 300), k + 1);
         }
+        // streams whose target only skips (parts of) the value: the error may come from the UTF-8 check that
+        // follows a value that was read successfully — it must end the stream like any other error
+        macro_rules! latch_stream {
+            ($t:ty, $name:expr) => {{
+                let mut st = Deserializer::from_slice(input).into_stream::<$t>();
+                let mut ended = false;
+                for _ in 0..10_000 {
+                    match st.next() {
+                        Some(Ok(_)) => {}
+                        Some(Err(e)) => {
+                            check_error($name, &e, input, false, obs)?;
+                            ended = true;
+                            break;
+                        }
+                        None => {
+                            ended = true;
+                            break;
+                        }
+                    }
+                }
+                ensure!(ended, "C20/stream/endless", "{} does not end on {:?}", $name, show_bytes(input, 200));
+                for k in 0..5 {
+                    ensure!(st.next().is_none(), "C20/stream/not-latched", "{} over {:?} yields an item {} polls after it reported an error or the end", $name, show_bytes(input, 300), k + 1);
+                }
+            }};
+        }
+        latch_stream!(IgnoredAny, "stream (StreamDeserializer<IgnoredAny>)");
+        latch_stream!(Plain, "typed stream (StreamDeserializer<Plain>)");
+        latch_stream!(WithOpt, "typed stream (StreamDeserializer<WithOpt>)");
+        latch_stream!(LazyValue, "stream (StreamDeserializer<LazyValue>)");
+        latch_stream!(Vec<IgnoredAny>, "stream (StreamDeserializer<Vec<IgnoredAny>>)");
         let by = Bytes::copy_from_slice(input);
         let mut st = Deserializer::from_json(&by).into_stream::<OwnedLazyValue>();
         let mut ended = false;
@@ -443,6 +474,31 @@ pub fn type_damage(src: &mut Src, text: &[u8]) -> Vec<u8> {
     walk(&root, &mut scalars, &mut keys);
     let mut out = text.to_vec();
     match src.below(5) {
+        0 | 1 if !scalars.is_empty() && src.chance(50) => {
+            // a long string of multi-byte characters where something else is expected (the visitor quotes what it
+            // found in its message), at every alignment of the characters
+            let sp = scalars[src.below(scalars.len())];
+            let ch = *src.pick(&["\u{54c8}", "\u{e9}", "\u{1f600}", "a"]);
+            let mut rep = String::from("\"");
+            rep.push_str(&"x".repeat(src.below(5)));
+            let n = *src.pick(&[60usize, 80, 100, 130, 200, 300]);
+            for _ in 0..n {
+                rep.push_str(ch);
+            }
+            rep.push('"');
+            out.splice(sp.start..sp.end, rep.bytes());
+        }
+        2 if !keys.is_empty() && src.chance(60) => {
+            let sp = keys[src.below(keys.len())];
+            let ch = *src.pick(&["\u{54c8}", "\u{e9}", "\u{1f600}"]);
+            let mut rep = String::from("\"");
+            rep.push_str(&"k".repeat(src.below(5)));
+            for _ in 0..*src.pick(&[60usize, 90, 130, 260]) {
+                rep.push_str(ch);
+            }
+            rep.push('"');
+            out.splice(sp.start..sp.end, rep.bytes());
+        }
         0 | 1 if !scalars.is_empty() => {
             let sp = scalars[src.below(scalars.len())];
             let rep: &[u8] = *src.pick(&[&b"null"[..], b"true", b"\"x\"", b"[]", b"{}", b"1", b"-1", b"256", b"65536", b"1.5", b"1e400", b"18446744073709551616", b"340282366920938463463374607431768211456", b"\"\\ud800\"", b"-0"]);
